@@ -2,28 +2,19 @@
    finite domain inside the kernel (vm_compute), against the verified primeb. *)
 From Coq Require Import ZArith Znumtheory Lia List Bool.
 Require Import C12.gen.Tables.
-From C12 Require Import PrimeB Model.
+From C12 Require Import PrimeB Model ProofsSweep.
 Import ListNotations.
 Local Open Scope Z_scope.
 
-Definition RANGE : nat := Z.to_nat 65536.
-Lemma RANGE_eq : Z.of_nat RANGE = 65536. Proof. unfold RANGE. rewrite Z2Nat.id; lia. Qed.
-
-Definition agree (f : Z -> option bool) (n : Z) : bool :=
-  match f n with Some b => Bool.eqb b (primeb n) | None => false end.
-
-(* forallb with an early exit is not needed: every n must be visited anyway *)
-Definition sweep_isprime : bool := forallb (agree (isprime_model (fun _ => false))) (Zseq 0 RANGE).
-
-Lemma sweep_isprime_ok : sweep_isprime = true.
+Lemma sweep_isprime_ok : forallb (agree (isprime_model (fun _ => false))) (Zseq 0 RANGE) = true.
 Proof. vm_compute. reflexivity. Qed.
 
 Lemma dispatch2_eq : DISPATCH2 = 65536. Proof. reflexivity. Qed.
-Lemma dispatch1_le : 0 <= DISPATCH1 <= DISPATCH2. Proof. split; apply Z.leb_le; reflexivity. Qed.
 
 Lemma isprime_model_oracle_irrelevant : forall lp lp' n, n < 65536 -> isprime_model lp n = isprime_model lp' n.
 Proof.
   intros lp lp' n Hn. unfold isprime_model.
+  destruct (ISPRIME_HAS_GUARD && (n <? ISPRIME_GUARD)); [reflexivity|].
   destruct (Z.ltb_spec n DISPATCH1); [reflexivity|].
   destruct (Z.ltb_spec n DISPATCH2) as [|H2]; [reflexivity|].
   rewrite dispatch2_eq in H2. lia.
@@ -36,87 +27,24 @@ Definition Isprime_table_stmt : Prop :=
 Lemma isprime_table : Isprime_table_stmt.
 Proof.
   intros lp n Hn.
-  pose proof sweep_isprime_ok as H. unfold sweep_isprime in H.
-  rewrite forallb_forall in H.
-  specialize (H n). rewrite In_Zseq in H. rewrite RANGE_eq in H. specialize (H ltac:(lia)).
-  unfold agree in H.
   rewrite (isprime_model_oracle_irrelevant lp (fun _ => false) n ltac:(lia)).
-  destruct (isprime_model (fun _ => false) n) as [b|]; [|discriminate].
-  exists b. split; [reflexivity|].
-  apply Bool.eqb_prop in H. subst b. apply primeb_spec.
+  apply agree_spec.
+  apply (sweep_lift (agree (isprime_model (fun _ => false))) 0 RANGE sweep_isprime_ok).
+  rewrite RANGE_eq. lia.
 Qed.
 
-(* the two searches on their own sub-ranges (public members of IntPrimeDom) *)
-Definition sweep_tab1 : bool := forallb (agree tabule1) (Zseq 0 (Z.to_nat DISPATCH1)).
-Definition sweep_tab2 : bool := forallb (agree tabule2) (Zseq DISPATCH1 (Z.to_nat (DISPATCH2 - DISPATCH1))).
-Lemma sweep_tab1_ok : sweep_tab1 = true. Proof. vm_compute. reflexivity. Qed.
-Lemma sweep_tab2_ok : sweep_tab2 = true. Proof. vm_compute. reflexivity. Qed.
-
-Definition Tabule1_stmt : Prop :=
-  forall n, 0 <= n < DISPATCH1 -> exists b, tabule1 n = Some b /\ (b = true <-> prime n).
-Definition Tabule2_stmt : Prop :=
-  forall n, DISPATCH1 <= n < DISPATCH2 -> exists b, tabule2 n = Some b /\ (b = true <-> prime n).
-
-Lemma tabule1_correct : Tabule1_stmt.
+(* n < 2 (in particular every negative n): either the source rejects it before looking at the tables, and then
+   isprime is false there; or it does not, and then there is a negative n that isprime accepts
+   (the tables start with the sentinel -1, and the argument is truncated to 32 bits). *)
+Definition Isprime_below_2_stmt : Prop :=
+  (ISPRIME_HAS_GUARD = true /\ forall lp n, n < 2 -> isprime_model lp n = Some false)
+  \/
+  (ISPRIME_HAS_GUARD = false /\ exists n, n < 0 /\ forall lp, isprime_model lp n = Some true).
+Lemma isprime_below_2 : Isprime_below_2_stmt.
 Proof.
-  intros n Hn. pose proof sweep_tab1_ok as H. unfold sweep_tab1 in H. rewrite forallb_forall in H.
-  specialize (H n). rewrite In_Zseq in H.
-  assert (Hd : 0 <= DISPATCH1) by apply dispatch1_le.
-  rewrite Z2Nat.id in H by exact Hd. specialize (H ltac:(lia)). unfold agree in H.
-  destruct (tabule1 n) as [b|]; [|discriminate]. exists b. split; [reflexivity|].
-  apply Bool.eqb_prop in H. subst b. apply primeb_spec.
+  first
+  [ left; split; [reflexivity|]; intros lp n Hn; unfold isprime_model;
+    change ISPRIME_HAS_GUARD with true; change ISPRIME_GUARD with 2;
+    destruct (Z.ltb_spec n 2); [reflexivity|lia]
+  | right; split; [reflexivity|]; exists (-1); split; [lia|]; intro lp; vm_compute; reflexivity ].
 Qed.
-
-Lemma tabule2_correct : Tabule2_stmt.
-Proof.
-  intros n Hn. pose proof sweep_tab2_ok as H. unfold sweep_tab2 in H. rewrite forallb_forall in H.
-  specialize (H n). rewrite In_Zseq in H.
-  assert (Hd : 0 <= DISPATCH1 <= DISPATCH2) by apply dispatch1_le.
-  rewrite Z2Nat.id in H by lia. specialize (H ltac:(lia)). unfold agree in H.
-  destruct (tabule2 n) as [b|]; [|discriminate]. exists b. split; [reflexivity|].
-  apply Bool.eqb_prop in H. subst b. apply primeb_spec.
-Qed.
-
-(* givprimes16.C: the table is exactly the increasing list of all primes below 2^16, and _size is its length *)
-Fixpoint list_eqb (a b : list Z) : bool :=
-  match a, b with
-  | [], [] => true
-  | x :: a', y :: b' => if x =? y then list_eqb a' b' else false
-  | _, _ => false
-  end.
-Lemma list_eqb_eq : forall a b, list_eqb a b = true -> a = b.
-Proof.
-  induction a as [|x a IH]; destruct b as [|y b]; cbn [list_eqb]; intro H; try discriminate; [reflexivity|].
-  destruct (Z.eqb_spec x y); [|discriminate]. subst. f_equal. apply IH. exact H.
-Qed.
-
-Definition all_primes_below_65536 : list Z := filter primeb (Zseq 0 RANGE).
-
-Lemma primes16_sweep : list_eqb PRIMES16 all_primes_below_65536 = true.
-Proof. vm_compute. reflexivity. Qed.
-Lemma primes16_size_ok : Z.of_nat (length PRIMES16) =? PRIMES16_SIZE = true.
-Proof. vm_compute. reflexivity. Qed.
-
-Definition Primes16_stmt : Prop :=
-  PRIMES16 = filter primeb (Zseq 0 RANGE)
-  /\ (forall n, In n PRIMES16 <-> (0 <= n < 65536 /\ prime n))
-  /\ Z.of_nat (length PRIMES16) = primes16_count.
-
-Lemma primes16_correct : Primes16_stmt.
-Proof.
-  pose proof (list_eqb_eq _ _ primes16_sweep) as E. unfold all_primes_below_65536 in E.
-  split; [exact E|]. split.
-  - intro n. rewrite E, filter_In, In_Zseq, RANGE_eq, primeb_spec. lia.
-  - apply Z.eqb_eq. exact primes16_size_ok.
-Qed.
-
-(* the small-prime table of isprimepower: every non-zero entry is prime, entries are all the primes below
-   SMALLEST_OMITTED_PRIME, in order, then the 0 terminator *)
-Lemma pp_primes_sweep :
-  list_eqb PP_PRIMES (filter primeb (Zseq 0 (Z.to_nat SMALLEST_OMITTED_PRIME)) ++ [0]) = true.
-Proof. vm_compute. reflexivity. Qed.
-
-Definition Pp_primes_stmt : Prop :=
-  PP_PRIMES = filter primeb (Zseq 0 (Z.to_nat SMALLEST_OMITTED_PRIME)) ++ [0].
-Lemma pp_primes_correct : Pp_primes_stmt.
-Proof. apply list_eqb_eq. exact pp_primes_sweep. Qed.
